@@ -43,9 +43,9 @@ variable (σ : St) (t : Nat)
   all_goals rfl
 @[simp] theorem mgrDone_hsTok (k : MK) : (mgrDone σ t k).hsTok = σ.hsTok := by
   unfold mgrDone; simp only []; repeat' split
-  all_goals first | rfl | exact sendDone_hsTok σ t _ | (simp only [recvDropTail_hsTok, sendDropTail_hsTok]; rfl)
+  all_goals first | rfl | exact sendDone_hsTok σ t _ | (simp only [recvDropTail_hsTok, sendDropTail_hsTok]; done) | (simp only [recvDropTail_hsTok, sendDropTail_hsTok]; rfl)
 @[simp] theorem freeEnd_hsTok (k : MK) : (freeEnd σ t k).hsTok = σ.hsTok := by
-  unfold freeEnd; split <;> (simp only [mgrDone_hsTok]; try rfl)
+  unfold freeEnd; (simp only [mgrDone_hsTok]; try rfl)
 @[simp] theorem freeTail_hsTok (k : MK) : (freeTail σ t k).hsTok = σ.hsTok := by
   unfold freeTail; repeat' split
   all_goals first | rfl | (simp only [mgrDone_hsTok]; try rfl)
@@ -110,7 +110,7 @@ theorem mgrDone_g (k : MK) : ((mgrDone σ t k).th t).g = (σ.th t).g := by
     | (rw [sendDropTail_g]; done)
     | g_tac
 theorem freeEnd_g (k : MK) : ((freeEnd σ t k).th t).g = (σ.th t).g := by
-  unfold freeEnd; split <;> (rw [mgrDone_g])
+  unfold freeEnd; (rw [mgrDone_g])
 theorem freeTail_g (k : MK) : ((freeTail σ t k).th t).g = (σ.th t).g := by
   unfold freeTail; repeat' split
   all_goals first | (rw [mgrDone_g]; done) | g_tac
